@@ -125,7 +125,7 @@ class Weaver:
 
     def FN(self, name, props=(), ret=None, requires=(), ensures=(), loops=None, rewrites=(),
            before=(), after=(), head='', mutself=False, attrs=(), trusted=False, vis=None, decreases=None,
-           ensures_raw='', no_unwind=False):
+           ensures_raw='', no_unwind=False, lost=None):
         rel = self.cur['src']
         within = self.cur_impl
         text, it = self.find(rel, 'fn ' + name, within=within)
@@ -139,6 +139,8 @@ class Weaver:
         try:
             if q in self.force_lost and not trusted:
                 raise LostAnchor(self.force_lost[q])
+            if lost and not trusted:
+                raise LostAnchor('%s: %s' % (q, lost))
             body = self._apply_rewrites(raw, rewrites, q)
             body = self._normalise(body, 'fn', trait_impl=trait_impl)
             if vis is not None:
